@@ -319,50 +319,11 @@ func c14Composition(c *explore.Ctx, order []string) {
 			return
 		}
 		// analyse the log per kind
+		must := map[string]bool{}
 		for _, k := range c14Kinds {
-			var seq []string
-			for _, l := range c14.log {
-				p := strings.SplitN(l, ":", 3)
-				if len(p) >= 2 && p[1] == k {
-					if p[0] == "base" {
-						seq = append(seq, "base")
-					} else {
-						seq = append(seq, p[0]+":"+p[2])
-					}
-				}
-			}
-			var pattern []string
-			for _, n := range order {
-				pattern = append(pattern, "enter:"+n)
-			}
-			pattern = append(pattern, "base")
-			for i := len(order) - 1; i >= 0; i-- {
-				pattern = append(pattern, "exit:"+order[i])
-			}
-			if len(seq) == 0 {
-				c.Violate("wrappers-installed", "hook-never-fired:"+k, cas(), "at least one "+k+" event in the trigger script", "none")
-				continue
-			}
-			ok := len(seq)%len(pattern) == 0
-			for i := 0; ok && i < len(seq); i++ {
-				ok = seq[i] == pattern[i%len(pattern)]
-			}
-			if !ok {
-				cl := "wrong-nesting:" + k
-				missing := false
-				for _, n := range order {
-					if !strings.Contains(strings.Join(seq, " "), "enter:"+n) {
-						missing = true
-					}
-				}
-				if missing {
-					cl = "wrapper-not-installed:" + k
-				} else if len(order) > 1 && strings.HasPrefix(strings.Join(seq, " "), "enter:"+order[len(order)-1]) {
-					cl = "nesting-reversed:" + k
-				}
-				c.Violate("wrappers-compose", cl, cas(), strings.Join(pattern, " ")+" (repeated)", strings.Join(seq, " "))
-			}
+			must[k] = true
 		}
+		c14Nesting(c, cas, order, c14Kinds, must, "")
 		var wantLoad []string
 		for _, n := range order {
 			wantLoad = append(wantLoad, "load:"+n)
@@ -373,6 +334,111 @@ func c14Composition(c *explore.Ctx, order []string) {
 		if strings.Join(c14.loaded, " ") != strings.Join(wantLoad, " ") {
 			c.Violate("plugin-lifecycle", "load-unload-not-once-in-order", cas(), strings.Join(wantLoad, " "), strings.Join(c14.loaded, " "))
 		}
+		swallowedPanic(c, w, cas)
+	})
+}
+
+// c14Nesting checks, per hook kind, that the recorded calls are repetitions of
+// enter(order) base exit(reverse order).  must lists kinds that have to have fired.
+func c14Nesting(c *explore.Ctx, cas func() any, order []string, kinds []string, must map[string]bool, tag string) {
+	for _, k := range kinds {
+		var seq []string
+		for _, l := range c14.log {
+			p := strings.SplitN(l, ":", 3)
+			if len(p) >= 2 && p[1] == k {
+				if p[0] == "base" {
+					seq = append(seq, "base")
+				} else {
+					seq = append(seq, p[0]+":"+p[2])
+				}
+			}
+		}
+		var pattern []string
+		for _, n := range order {
+			pattern = append(pattern, "enter:"+n)
+		}
+		pattern = append(pattern, "base")
+		for i := len(order) - 1; i >= 0; i-- {
+			pattern = append(pattern, "exit:"+order[i])
+		}
+		if len(seq) == 0 {
+			if must[k] {
+				c.Violate("wrappers-installed", "hook-never-fired:"+k+tag, cas(), "at least one "+k+" event in the trigger script", "none")
+			}
+			continue
+		}
+		ok := len(seq)%len(pattern) == 0
+		for i := 0; ok && i < len(seq); i++ {
+			ok = seq[i] == pattern[i%len(pattern)]
+		}
+		if !ok {
+			cl := "wrong-nesting:" + k
+			missing := false
+			for _, n := range order {
+				if !strings.Contains(strings.Join(seq, " "), "enter:"+n) {
+					missing = true
+				}
+			}
+			if missing {
+				cl = "wrapper-not-installed:" + k
+			} else if len(order) > 1 && strings.HasPrefix(strings.Join(seq, " "), "enter:"+order[len(order)-1]) {
+				cl = "nesting-reversed:" + k
+			}
+			c.Violate("wrappers-compose", cl+tag, cas(), strings.Join(pattern, " ")+" (repeated)", strings.Join(seq, " "))
+		}
+	}
+}
+
+// c14Restart: hooks that fire for a session the broker restored from the persistence
+// backend at start-up (redis over the in-process RESP server), before its client has
+// logged in again: a message dropped from the restored queue goes through every plugin's
+// OnMsgDropped wrapper; resuming the session afterwards nests as usual.
+func c14Restart(c *explore.Ctx, order []string) {
+	cas := func() any { return map[string]any{"part": "composition-after-restart", "plugin_order": order} }
+	c.Count("executions", 1)
+	rd, db := c09DB(c, nil)
+	if rd == nil {
+		return
+	}
+	defer rd.DropDB(db)
+	execBody(c, "C14", cas, func() {
+		c14Reset("", nil)
+		cfg := c09Config(rd.Addr(), db)
+		cfg.PluginOrder = order
+		cfg.MQTT.MaxQueuedMsg = 1
+		w := harness.NewWorld(cfg, c14BaseHooks())
+		if w.InitErr != nil {
+			c.Fatal("C14 restart init: %v", w.InitErr)
+			return
+		}
+		exp := &refmqtt.Props{SessionExpiry: harness.U32(3600)}
+		f := w.Dial("F")
+		f.Connect(harness.ConnectOpts{ClientID: "f", Clean: true, Version: refmqtt.V5, Props: exp})
+		f.Subscribe(0, refmqtt.Sub{Filter: "t", QoS: 1})
+		f.Close()
+		vsched.Settle()
+		w.Stop()
+		if !w.StopDone {
+			c.Violate("stop", "stop-did-not-return", cas(), "Stop returns", fmt.Sprint(vsched.ThreadsParked()))
+			return
+		}
+		c14Reset("", nil)
+		w = harness.NewWorld(cfg, c14BaseHooks())
+		if w.InitErr != nil {
+			c.Violate("restart", "init-fails-on-stored-sessions", cas(), "Init succeeds", w.InitErr.Error())
+			return
+		}
+		p := w.Dial("P")
+		p.Connect(harness.ConnectOpts{ClientID: "p", Clean: true, Version: refmqtt.V311})
+		for i := 1; i <= 3; i++ {
+			p.Send(&refmqtt.Packet{Type: refmqtt.PUBLISH, Topic: "t", QoS: 1, PacketID: uint16(i), Payload: []byte{byte('0' + i)}})
+			vsched.Settle()
+		}
+		f2 := w.Dial("F2")
+		f2.Connect(harness.ConnectOpts{ClientID: "f", Clean: false, Version: refmqtt.V5, Props: exp})
+		vsched.Settle()
+		w.Stop()
+		c14Nesting(c, cas, order, c14Kinds, map[string]bool{"OnMsgDropped": true, "OnSessionResumed": true, "OnMsgArrived": true}, ":session-restored-at-start-up")
 		swallowedPanic(c, w, cas)
 	})
 }
@@ -734,7 +800,7 @@ func sortStrings(s []string) {
 
 func runC14(c *explore.Ctx) {
 	c.Level = "model_checking"
-	c.Rule = "E2: (composition) every permutation of every subset of three recording plugins as plugin_order (16 orders): a trigger script fires all 19 hook kinds; per kind the call log must be the repetition of enter(order...) base exit(reverse order), every exposed wrapper installed, Load/Unload once in order. (verdicts) every verdict of the table auth{accept, reject 0x86/0x87/0x80/plain error}, enhanced auth{accept, reject, continue-then-accept, continue-then-reject}, OnSubscribe{accept, reject all, reject one, downgrade, rewrite filter}, OnUnsubscribe{accept, reject all, reject one}, OnMsgArrived{accept, error, drop, rewrite}, OnWillPublish{keep, edit, drop} x v3.1.1/v5 x deciding plugin position (alone, inner, outer): wire acks, SubscriptionService / ClientService / RetainedService contents and what an independent '#' subscriber receives must equal the verdict."
+	c.Rule = "E2: (composition) every permutation of every subset of three recording plugins as plugin_order (16 orders): a trigger script fires all 19 hook kinds, and a second script runs on the redis backend across a broker restart (drop from the queue of a session restored at start-up, then resume); per kind the call log must be the repetition of enter(order...) base exit(reverse order), every exposed wrapper installed, Load/Unload once in order. (verdicts) every verdict of the table auth{accept, reject 0x86/0x87/0x80/plain error}, enhanced auth{accept, reject, continue-then-accept, continue-then-reject}, OnSubscribe{accept, reject all, reject one, downgrade, rewrite filter}, OnUnsubscribe{accept, reject all, reject one}, OnMsgArrived{accept, error, drop, rewrite}, OnWillPublish{keep, edit, drop} x v3.1.1/v5 x deciding plugin position (alone, inner, outer): wire acks, SubscriptionService / ClientService / RetainedService contents and what an independent '#' subscriber receives must equal the verdict."
 	c.Trusted = []string{"vsched default schedule", "refmqtt codec", "recording plugins registered through the public RegisterPlugin/plugin_order API"}
 	if rc := replayCase(c); rc != nil {
 		c.Fatal("C14 replay: cases are single executions; re-run ./run.sh C14 quick (%v)", rc)
@@ -758,7 +824,8 @@ func runC14(c *explore.Ctx) {
 			return
 		}
 		c14Composition(c, orders[u])
-		c.Count("states", 1)
+		c14Restart(c, orders[u])
+		c.Count("states", 2)
 		c.Count("transitions", int64(len(c14Kinds)))
 		if u%5 == 1 {
 			c.Sample(map[string]any{"part": "composition", "plugin_order": orders[u]})
